@@ -4,7 +4,7 @@ from checklib import *
 
 # per property: operation families (name, n quick, n thorough, chunks thorough), theorem-module note
 PROPS = {
-  'C01': {'families': [('chess', 400, 24000)]},
+  'C01': {'families': [('chess', 400, 24000), ('proc', 8, 12)]},
   'C02': {'families': [('chess', 400, 24000)]},
   'C03': {'families': [('chess', 400, 24000)]},
   'C09': {'families': [('chess', 400, 24000), ('hashdiff', 300, 30000)]},
@@ -15,8 +15,8 @@ PROPS = {
   'C04': {'families': [('search', 120, 6000), ('deep', 160, 20000)]},
   'C05': {'families': [('search', 120, 6000), ('time', 3000, 300000), ('timed', 40, 1500), ('dialog', 60, 2000), ('conc', 60, 3000)]},
   'C13': {'families': [('search', 120, 6000), ('deep', 60, 8000)]},
-  'C06': {'families': [('conc', 150, 8000), ('dialog', 100, 4000)]},
-  'C07': {'families': [('go', 4000, 400000), ('dialog', 150, 6000)]},
+  'C06': {'families': [('conc', 150, 8000), ('dialog', 100, 4000), ('proc', 12, 300)]},
+  'C07': {'families': [('go', 4000, 400000), ('dialog', 150, 6000), ('proc', 10, 200)]},
   'C08': {'families': [('time', 5000, 1000000)]},
   'C14': {'families': [('tt', 3000, 300000)]},
   'C15': {'families': [('eval', 3000, 300000)]},
